@@ -535,6 +535,8 @@ func main() {
 	sort.Strings(reach)
 	fmt.Fprintf(&out, "/-- functions of package stack reachable from Aggregate / ToHTML / String methods -/\ndef stackRenderReachable : List String := [%s]\n", quoteAll(reach))
 	fmt.Fprintf(&out, "/-- writes through anything but a plain local in the functions reachable from Aggregate / ToHTML / the console writers: func | expression | origin of the root variable -/\ndef stackWriteSet : List String := [%s]\ndef internalWriteSet : List String := [%s]\n", quoteAll(st.writeSet(stackFns)), quoteAll(in.writeSet(internalFns)))
+	fmt.Fprintf(&out, "/-- every package-level variable (name and type): the only storage that outlives a call -/\ndef stackGlobalVars : List String := [%s]\ndef internalGlobalVars : List String := [%s]\n\n", quoteAll(st.globalVars()), quoteAll(in.globalVars()))
+	fmt.Fprintf(&out, "/-- statements that write into, permute, copy over or append to the slice Opts.LocalGOPATHs / Snapshot.LocalGOPATHs (shared with the caller's Opts): func | expression -/\ndef stackGopathsWrites : List String := [%s]\n\n", quoteAll(st.sharedSliceWrites("LocalGOPATHs")))
 	fmt.Fprintf(&out, "/-- the same, reduced to what matters: (func | origin) of every write whose root is NOT a value created in that call -/\ndef stackNonFreshWrites : List String := [%s]\ndef internalNonFreshWrites : List String := [%s]\n\n", quoteAll(nonFresh(st.writeSet(stackFns))), quoteAll(nonFresh(in.writeSet(internalFns))))
 
 	webFacts(*repo)
